@@ -297,7 +297,9 @@ spif_dlinked_list_item_dup(spif_dlinked_list_item_t self)
 
     ASSERT_RVAL(!SPIF_DLINKED_LIST_ITEM_ISNULL(self), (spif_dlinked_list_item_t) NULL);
     tmp = spif_dlinked_list_item_new();
-    tmp->data = SPIF_OBJ_DUP(self->data);
+    if (!SPIF_OBJ_ISNULL(self->data)) {
+        tmp->data = SPIF_OBJ_DUP(self->data);
+    }
     return tmp;
 }
 
@@ -470,15 +472,19 @@ spif_dlinked_list_dup(spif_dlinked_list_t self)
     ASSERT_RVAL(!SPIF_LIST_ISNULL(self), (spif_dlinked_list_t) NULL);
     tmp = spif_dlinked_list_new();
     memcpy(tmp, self, SPIF_SIZEOF_TYPE(dlinked_list));
-    tmp->head = spif_dlinked_list_item_dup(self->head);
-    for (src = self->head, dest = tmp->head, prev = (spif_dlinked_list_item_t) NULL;
-         src->next;
-         src = src->next, prev = dest, dest = dest->next) {
-        dest->next = spif_dlinked_list_item_dup(src->next);
+    tmp->head = tmp->tail = (spif_dlinked_list_item_t) NULL;
+    if (!SPIF_DLINKED_LIST_ITEM_ISNULL(self->head)) {
+        tmp->head = spif_dlinked_list_item_dup(self->head);
+        for (src = self->head, dest = tmp->head, prev = (spif_dlinked_list_item_t) NULL;
+             src->next;
+             src = src->next, prev = dest, dest = dest->next) {
+            dest->next = spif_dlinked_list_item_dup(src->next);
+            dest->prev = prev;
+        }
         dest->prev = prev;
+        dest->next = (spif_dlinked_list_item_t) NULL;
+        tmp->tail = dest;
     }
-    dest->next = (spif_dlinked_list_item_t) NULL;
-    tmp->tail = prev;
     return tmp;
 }
 
@@ -491,15 +497,19 @@ spif_dlinked_list_vector_dup(spif_dlinked_list_t self)
     ASSERT_RVAL(!SPIF_VECTOR_ISNULL(self), (spif_dlinked_list_t) NULL);
     tmp = spif_dlinked_list_vector_new();
     memcpy(tmp, self, SPIF_SIZEOF_TYPE(dlinked_list));
-    tmp->head = spif_dlinked_list_item_dup(self->head);
-    for (src = self->head, dest = tmp->head, prev = (spif_dlinked_list_item_t) NULL;
-         src->next;
-         src = src->next, prev = dest, dest = dest->next) {
-        dest->next = spif_dlinked_list_item_dup(src->next);
+    tmp->head = tmp->tail = (spif_dlinked_list_item_t) NULL;
+    if (!SPIF_DLINKED_LIST_ITEM_ISNULL(self->head)) {
+        tmp->head = spif_dlinked_list_item_dup(self->head);
+        for (src = self->head, dest = tmp->head, prev = (spif_dlinked_list_item_t) NULL;
+             src->next;
+             src = src->next, prev = dest, dest = dest->next) {
+            dest->next = spif_dlinked_list_item_dup(src->next);
+            dest->prev = prev;
+        }
         dest->prev = prev;
+        dest->next = (spif_dlinked_list_item_t) NULL;
+        tmp->tail = dest;
     }
-    dest->next = (spif_dlinked_list_item_t) NULL;
-    tmp->tail = prev;
     return tmp;
 }
 
@@ -512,15 +522,19 @@ spif_dlinked_list_map_dup(spif_dlinked_list_t self)
     ASSERT_RVAL(!SPIF_MAP_ISNULL(self), (spif_dlinked_list_t) NULL);
     tmp = spif_dlinked_list_map_new();
     memcpy(tmp, self, SPIF_SIZEOF_TYPE(dlinked_list));
-    tmp->head = spif_dlinked_list_item_dup(self->head);
-    for (src = self->head, dest = tmp->head, prev = (spif_dlinked_list_item_t) NULL;
-         src->next;
-         src = src->next, prev = dest, dest = dest->next) {
-        dest->next = spif_dlinked_list_item_dup(src->next);
+    tmp->head = tmp->tail = (spif_dlinked_list_item_t) NULL;
+    if (!SPIF_DLINKED_LIST_ITEM_ISNULL(self->head)) {
+        tmp->head = spif_dlinked_list_item_dup(self->head);
+        for (src = self->head, dest = tmp->head, prev = (spif_dlinked_list_item_t) NULL;
+             src->next;
+             src = src->next, prev = dest, dest = dest->next) {
+            dest->next = spif_dlinked_list_item_dup(src->next);
+            dest->prev = prev;
+        }
         dest->prev = prev;
+        dest->next = (spif_dlinked_list_item_t) NULL;
+        tmp->tail = dest;
     }
-    dest->next = (spif_dlinked_list_item_t) NULL;
-    tmp->tail = prev;
     return tmp;
 }
 
